@@ -26,7 +26,7 @@ def states(tier, seed):
     sides = [("left", 2), ("left", 3), ("full", 5), ("right", 3)] + ([("full", 3), ("full", 7), ("left", 5)] if tier == "thorough" else [])
     # "wingbox+key": a wingbox surface whose dictionary also carries the documented (tube) key fem_origin - the wingbox
     # model derives the elastic axis from the section data everywhere, the key must not move the moment reference alone
-    origins = [0.35, 0.0, 0.25, 0.7, 1.0, "wingbox", "wingbox+key"]
+    origins = [0.35, 0.0, 0.25, 0.7, 1.0, "wingbox", "wingbox+key", "wingbox_camber"]
     for nx, (side, ny), pf, fo in itertools.product(nxs, sides, ["swept", "twdi", "camber"], origins):
         if pf == "camber" and nx < 3:
             continue
@@ -39,7 +39,7 @@ def states(tier, seed):
         for sel in itertools.permutations(range(3), n):
             for symp in ("all", "none", "mixed"):
                 st.append(dict(part="export", sel=list(sel), symp=symp, fam=fam))
-    for nx, (side, ny), pf, fo in itertools.product(nxs, sides, ["swept", "twdi", "camber"], [0.35, 0.0, 1.0, "wingbox", "wingbox+key"]):
+    for nx, (side, ny), pf, fo in itertools.product(nxs, sides, ["swept", "twdi", "camber"], [0.35, 0.0, 1.0, "wingbox", "wingbox+key", "wingbox_camber"]):
         if pf == "camber" and nx < 3:
             continue
         st.append(dict(part="disp", nx=nx, ny=ny, side=side, pf=pf, origin=fo, fam=fam))
@@ -67,6 +67,14 @@ def _surf_of(s, mesh):
         return builders.struct_surface("w", mesh, sym, "wingbox")
     if s.get("origin") == "wingbox+key":
         return builders.struct_surface("w", mesh, sym, "wingbox", fem_origin=0.2)
+    if s.get("origin") == "wingbox_camber":
+        # strongly cambered section: the LOWER surface lies above the chord line at the rear spar (and the spars have unequal height)
+        surf = builders.struct_surface("w", mesh, sym, "wingbox")
+        ramp = 0.12 * (surf["data_x_upper"] - surf["data_x_upper"][0])
+        surf["data_y_upper"] = surf["data_y_upper"] + ramp
+        surf["data_y_lower"] = surf["data_y_lower"] + ramp
+        assert surf["data_y_lower"][-1] > 0
+        return surf
     return builders.struct_surface("w", mesh, sym, "tube", fem_origin=s.get("origin", 0.35))
 
 
